@@ -1029,7 +1029,11 @@ lua_statements = [
     ),
     dict(
         name="lua_string_&_in",
-        base="lua_string_*_in",
+        # Pass a std::string, not a 'const char *' which prefers an
+        # overload with a bool argument.
+        pre_call=[
+            "const std::string {c_var}(\t{pop_expr});",
+        ],
     ),
     dict(
         name="lua_string_scalar_result",
